@@ -568,6 +568,52 @@ def rule_float(chk):
                    "float suffix kind %s produces %s, must be %s" % (k, tab.get(k), v), where(lf), sample={"suffix": k, "token": str(tab.get(k))})
 
 
+def payload_eval(chk, crate, name, fn):
+    """generate_literal / parse_literal read as tables (litmodel): the number that comes out is the number that went in, for
+    every kind and for payloads at both ends of the range. True when readable."""
+    import litmodel as L
+    f = chk.facts
+    t = crate.replace("rssl_", "")
+    if name == "generate_literal":
+        tab = L.generate_table(f, crate)
+        if isinstance(tab, str):
+            chk.note("C10.payload: %s; the shape rule decides" % tab)
+            return False
+        n = 0
+        for k, rows in sorted(tab.items()):
+            bad = None
+            for v, o in rows:
+                if o[0] == "lit" and L.denotes(o) != v:
+                    bad = bad or "Constant::%s(%r) is written as %sLiteral::%s(%r): the payload is not carried over unchanged" % (k, v, "-" if o[3] else "", o[1], o[2])
+                elif o[0] == "aborts":
+                    bad = bad or "Constant::%s(%r) aborts the exporter (%s)" % (k, v, o[1])
+            n += 1
+            chk.ob("C10.payload/%s/%s/%s" % (t, name, k), bad is None, bad or "Constant::%s: the payload is carried over unchanged (%d payloads)" % (k, len(rows)), where(fn), sample={"from": k})
+        chk.floor("C10.floor/%s/%s" % (crate, name), n, 8, "literal kinds handled by %s" % name, where(fn))
+        return True
+    if name == "parse_literal":
+        n = 0
+        res = {}
+        for lk, ps in L.LITERALS.items():
+            bad = None
+            for p_ in ps:
+                c = L.parse(f, fn, lk, p_)
+                if c[0] == "unreadable":
+                    chk.note("C10.payload: parse_literal is not readable on Literal::%s (%s); the shape rule decides" % (lk, c[1]))
+                    return False
+                if c[0] == "const" and (c[2] != p_ or isinstance(c[2], bool) != isinstance(p_, bool)):
+                    bad = bad or "the source literal %s(%r) is typed as Constant::%s(%r): the payload is not carried over unchanged" % (lk, p_, c[1], c[2])
+                elif c[0] == "aborts":
+                    bad = bad or "the source literal %s(%r) aborts the typer (%s)" % (lk, p_, c[1])
+            res[lk] = bad
+            n += 1
+        for lk, bad in res.items():
+            chk.ob("C10.payload/%s/%s/%s" % (t, name, lk), bad is None, bad or "Literal::%s: the payload is carried over unchanged" % lk, where(fn), sample={"from": lk})
+        chk.floor("C10.floor/%s/%s" % (crate, name), n, 8, "literal kinds handled by %s" % name, where(fn))
+        return True
+    return False
+
+
 def rule_payload(chk):
     """Literal payloads are copied, not recomputed: parser, typer, exporters."""
     f = chk.facts
@@ -578,6 +624,8 @@ def rule_payload(chk):
         fn = chk.anchor("C10.anchor/%s::%s" % (crate, name), f.fn(name, crate), name)
         if not fn:
             continue
+        if payload_eval(chk, crate, name, fn):
+            continue        # (read as a table; the shape rule below is the fallback)
         ms = F.find_matches(fn, src)
         if not ms:
             chk.ob("C10.payload/%s/%s" % (crate, name), False, "anchor-missing: match over %s" % src, where(fn))
